@@ -3,8 +3,8 @@ import os, re, json, time
 import engine
 
 HARNESSES = {
-    'ut_map': ['do_find', 'do_erase', 'do_update', 'do_insert', 'do_insert_update', 'insert', 'erase', 'find', 'clean_expired_values'],
-    'ut_set': ['do_find', 'do_erase', 'do_update', 'do_insert', 'do_insert_update', 'insert', 'erase', 'find', 'clean_expired_values'],
+    'ut_map': ['do_find', 'do_erase', 'do_update', 'do_insert', 'do_insert_update', 'do_prune', 'insert', 'erase', 'find', 'clean_expired_values'],
+    'ut_set': ['do_find', 'do_erase', 'do_update', 'do_insert', 'do_insert_update', 'do_prune', 'insert', 'erase', 'find', 'clean_expired_values'],
     'tlru_cache': ['do_erase', 'do_prune', 'do_find', 'do_update', 'find', 'erase'],
     'lfu_cache': ['do_erase', 'do_prune', 'do_find', 'do_update', 'do_insert', 'do_insert_update', 'erase', 'insert', 'find_with_use_count'],
     'fifo_cache': ['do_find', 'do_update', 'find'],
@@ -32,6 +32,8 @@ REGISTERED = ('lru_cache', 'mru_cache', 'rr_cache', 'fifo_cache', 'lfu_cache', '
 # calls replaced by a contract stub (assumed contract of a repository function that is only decided in route B)
 _PR = lambda c: ['%s__do_prune:%s__do_prune_contract' % (c, c)]
 REPLACE = {c: {f: _PR(c) for f in ('insert', 'erase', 'find', 'clean_expired_values')} for c in ('ut_map', 'ut_set')}
+# route U units with a bound of their own (any number of stored entries, at most 2 of them expired at the call)
+BOUNDED_U = {('ut_map', 'do_prune'): 'U-expired-le-2', ('ut_set', 'do_prune'): 'U-expired-le-2'}
 DYNAMIC = ('ut_map', 'ut_set')  # containers whose list grows and shrinks: cstl_ud/cstl_list.h shadows cstl_u/cstl_list.h
 
 
@@ -40,7 +42,8 @@ class UUnit:
         self.spec = None
         self.container, self.short, self.gen, self.timeout = container, short, gen, timeout
         self.fn = '%s__%s' % (container, short)
-        self.id = '%s/U' % self.fn
+        # a route U unit that carries a bound of its own is not an 'every capacity' result: its id says so (not '/U/')
+        self.id = '%s/%s' % (self.fn, BOUNDED_U.get((container, short), 'U'))
         self.maxcap = 0
         self.lockcov = False
 
